@@ -74,7 +74,7 @@ func genC19(verifSeed int64, tier string, idx int) *core.Scenario {
 	stored := false
 	for i := 0; i < nsteps; i++ {
 		var st Step
-		via := []string{"fs", "fs", "rw"}[r.Intn(3)]
+		via := []string{"fs", "fs", "rw", "rwb", "fsnil"}[r.Intn(5)]
 		k := r.Intn(10)
 		switch {
 		case k < 5 || !stored:
@@ -89,7 +89,7 @@ func genC19(verifSeed int64, tier string, idx int) *core.Scenario {
 			st = Step{K: "Damage", ID: r.Intn(nids), Dmg: []string{"trunc0", "truncmid", "garbage", "chmod000", "truncsmall", "garbagesmall", "flipbyte"}[r.Intn(7)], D: r.Intn(1 << 16)}
 		}
 		if sp.Faulty && st.K != "Damage" && r.Intn(4) == 0 {
-			st.Fault = &FaultSpec{K: r.Intn(8), Kind: faultKinds[r.Intn(len(faultKinds))], Arg: r.Intn(40)}
+			st.Fault = &FaultSpec{K: r.Intn(8), Kind: faultKinds[r.Intn(len(faultKinds))], Arg: r.Intn(40), Sticky: r.Intn(4) == 0}
 		}
 		sp.Steps = append(sp.Steps, st)
 	}
@@ -354,7 +354,9 @@ func execC19(sc *core.Scenario) *core.Result {
 	body := func(*verifsim.Task) {
 		for i, st := range sp.Steps {
 			verifsim.OpBegin()
+			verifsim.SetStepCap(40000000) // per step: a retry loop under a persisting fault must end
 			outcomes[i] = e.step(i, st)
+			verifsim.SetStepCap(400000000)
 			verifsim.OpEnd()
 			after := fmt.Sprintf("(after step %d: %s)", i, st.K)
 			e.checkAll(after)
@@ -413,7 +415,7 @@ func (e *env) step(i int, st Step) string {
 	ev0 := e.disk.NEvents
 	e.disk.Faults = nil
 	if st.Fault != nil {
-		e.disk.Faults = []simos.Fault{{Event: ev0 + st.Fault.K, Kind: st.Fault.Kind, Arg: st.Fault.Arg}}
+		e.disk.Faults = []simos.Fault{{Event: ev0 + st.Fault.K, Kind: st.Fault.Kind, Arg: st.Fault.Arg, Sticky: st.Fault.Sticky}}
 	}
 	firedBefore := totalFired(e.disk)
 	defer func() { e.disk.Faults = nil }()
@@ -582,7 +584,7 @@ func (e *env) step(i int, st Step) string {
 func totalFired(d *simos.Disk) int {
 	n := 0
 	for k, v := range d.Fired {
-		if k != "trunc-existing" && k != "rename-over-existing" && k != "short-write" {
+		if k != "trunc-existing" && k != "rename-over-existing" && k != "short-write" && k != "sticky-repeat" {
 			n += v
 		}
 	}
